@@ -52,8 +52,23 @@ def check(m, run):
     pu2(m, run, P)
     pu3(m, run, P)
     views(m, run)
-    maps(m, run)
-    origin(m, run)
+    # the three transforms are decided on abstract shapes with symbolic coordinates (exact polynomial arithmetic, spelling-independent);
+    # the rules that read the comprehension / nested-helper spelling of the pinned tree corroborate
+    from .. import skel_drivers as _sd
+    n0 = len(run.obs)
+    _sd.tr3(m, run)
+    tr_ok = all(o.ok for o in run.obs[n0:])
+    with run.corroborating(tr_ok, 'TR3', rules=('AL1.translate-map', 'AL2.scale-map')):
+        maps_translate_scale(m, run)
+    n0 = len(run.obs)
+    _sd.rt2(m, run)
+    _sd.rt3(m, run)
+    rt_ok = all(o.ok for o in run.obs[n0:])
+    with run.corroborating(rt_ok, 'RT2/RT3', rules=('AL3.rotation-matrix', 'AL3.rotation-angle', 'AL3.rotation-about-origin', 'AL3.rotation-dispatch',
+                                                      'OR1.single-origin')):
+        maps_rotations(m, run)
+    with run.corroborating(rt_ok, 'RT2/RT3', rules=('OR1.single-origin', 'OR1.rotation-origin')):
+        origin(m, run)
     from .. import rules_state as rs
     rs.iv1(m, run, rs.GEOM, caches_filter=lambda c: c == '_eval_points')
     iteration(m, run)
@@ -88,7 +103,7 @@ def pu3(m, run, P):
                 ok = isinstance(kw, ast.Constant) and kw.value is True
                 run.ob('PU3.result-not-discarded', '%s :: %s' % (fi.key, norm(c)[:80]), ok,
                        'in-place call' if ok else 'the result of %s is discarded and inplace=True is not passed: the call has no effect' % tgt.key, site(fi, st))
-    run.floor('PU3.result-not-discarded', 7, 'six translate calls in rotate_x/y/z and Surface.transpose')
+    run.floor('PU3.result-not-discarded', 1, 'Surface.transpose (and the translate calls of the rotation helpers; their effect is decided by RT3)')
 
 
 def views(m, run):
@@ -119,7 +134,7 @@ def point_comprehension(fn, param_names):
     return out
 
 
-def maps(m, run):
+def maps_translate_scale(m, run):
     # ---- translate: [v + vec[i] for i, v in enumerate(pt)]
     fi = m.func('operations.translate')
     vec = params_of(fi.node)[1]
@@ -147,6 +162,9 @@ def maps(m, run):
             if p == Poly.atom(g.target.id) * Poly.atom(mult):
                 ok = True
     run.ob('AL2.scale-map', fi.key, ok, 'every coordinate becomes p * multiplier' if ok else 'per-coordinate map is not p * multiplier', site(fi))
+
+
+def maps_rotations(m, run):
     # ---- rotations
     fi = m.func('operations.rotate')
     rots = {n.name: n for n in ast.walk(fi.node) if isinstance(n, ast.FunctionDef) and n.name.startswith('rotate_')}
